@@ -1,6 +1,9 @@
 /-
-  C09 — bridge theorem to the kernel translated from the source (regenerated on every run):
-  the model's 16 KiB rule is `utils.is_divisible_by_16_kib`.
+  C09 — bridge theorems to the kernels translated from the source (regenerated on every run):
+  the model's 16 KiB rule is `utils.is_divisible_by_16_kib`; the model's `piece_size` setter refuses a
+  value exactly when the setter's range test (`not piece_size_min <= piece_length <= piece_size_max`)
+  says so; the values the `piece_size_min` / `piece_size_max` setters push through the `piece_size`
+  setter are the code's `max(...)` / `min(...)`.
 -/
 import Torf.Generated.Kernels
 import Torf.Model.Attrs
@@ -15,5 +18,27 @@ theorem C09_kernel_divisible (x : Int) : Torf.Attrs.divisible x = isDivisibleBy1
   · have h' : 0 < x := by omega
     simp only [h, h', decide_true, Bool.true_and, decide_false, if_false, Bool.false_eq_true]
     by_cases hm : x % 16384 = 0 <;> simp [hm]
+
+/-- a value divisible by 16 KiB is refused by the model's setter iff the code's range test fires -/
+theorem C09_kernel_range (s : Torf.Attrs.St) (x : Int) (hd : Torf.Attrs.divisible x = true) :
+    (Torf.Attrs.checkAndStore s x).2 = .err .pieceSize ↔ pieceSizeOutOfRange s.pmin x s.pmax = true := by
+  unfold Torf.Attrs.checkAndStore pieceSizeOutOfRange
+  simp only [hd, Bool.not_true, Bool.false_eq_true, if_false]
+  by_cases h : ((s.pmin : Int) ≤ x && x ≤ (s.pmax : Int)) = true
+  · simp [h]
+  · simp only [Bool.not_eq_true] at h
+    simp [h]
+
+/-- the `piece_size_min` setter clamps with the code's `max(piece_size_min, piece_size)` -/
+theorem C09_kernel_clamp_min (s1 : Torf.Attrs.St) (pl : Nat) (h : s1.pl = some pl) (h0 : pl ≠ 0) :
+    Torf.Attrs.clampMin s1 = Torf.Attrs.setPieceSize s1 (some (clampToMin s1.pmin pl)) := by
+  unfold Torf.Attrs.clampMin clampToMin
+  simp [h, h0]
+
+/-- the `piece_size_max` setter clamps with the code's `min(piece_size_max, piece_size)` -/
+theorem C09_kernel_clamp_max (s1 : Torf.Attrs.St) (pl : Nat) (h : s1.pl = some pl) (h0 : pl ≠ 0) :
+    Torf.Attrs.clampMax s1 = Torf.Attrs.setPieceSize s1 (some (clampToMax s1.pmax pl)) := by
+  unfold Torf.Attrs.clampMax clampToMax
+  simp [h, h0]
 
 end Torf.C09
